@@ -66,12 +66,7 @@ func buildNative(repo string, ld *loaded, tags string) (*nativeBuild, error) {
 		args := []string{"test", "-c", "-vet=off", "-overlay", ovPath, "-o", bin}
 		// never let the build touch the repository's go.mod / go.sum (a harness importing an
 		// indirect dependency would otherwise get it rewritten under -mod=mod): work on copies
-		if gm, err := os.ReadFile(filepath.Join(repo, "go.mod")); err == nil {
-			mf := filepath.Join(tmp, "go.mod")
-			os.WriteFile(mf, gm, 0o644)
-			if gs, err := os.ReadFile(filepath.Join(repo, "go.sum")); err == nil {
-				os.WriteFile(filepath.Join(tmp, "go.sum"), gs, 0o644)
-			}
+		if mf := privateModfile(repo, tmp); mf != "" {
 			args = append(args, "-modfile="+mf)
 		}
 		if tags != "" {
@@ -189,7 +184,7 @@ func reproduced(v *violation, nr *nativeRun) bool {
 		return nr.TimedOut || strings.Contains(nr.Raw, "all goroutines are asleep") || strings.Contains(nr.Raw, "test timed out")
 	}
 	for _, f := range nr.Failed {
-		if f == v.Label {
+		if strings.TrimSpace(f) == strings.TrimSpace(v.Label) {
 			return true
 		}
 		// NoPanic labels are "<base>:<sanitised panic message>": the message may render
@@ -216,6 +211,7 @@ func replayFile(prop, harnessDir, rtDir, path string) int {
 	if cb, err := os.ReadFile(filepath.Join(harnessDir, "config.json")); err == nil {
 		json.Unmarshal(cb, &cfg)
 	}
+	setModReplace(cfg)
 	tags := "math_big_pure_go"
 	if cfg.Tags != "" {
 		tags += "," + cfg.Tags
